@@ -151,14 +151,36 @@ func (b *exampleBuilder) buildExampleForMixedValueNode(node *ischema.MixedValueN
 		return nil, errs.ErrLoader.F()
 	}
 
-	typeName := tt[0]
-	if !bytes.NewBytes(typeName).IsUserTypeName() {
-		return node.Value().Data(), nil
+	if !bytes.NewBytes(tt[0]).IsUserTypeName() {
+		// A choice with an explicit `type: "mixed"`: its alternatives are in the
+		// list of types of the node. Anything else is a plain value.
+		tl, ok := node.Constraint(constraint.TypesListConstraintType).(*constraint.TypesList)
+		if !ok || tl == nil || !tl.HasUserTypes() {
+			return node.Value().Data(), nil
+		}
+		tt = tl.Names()
 	}
 
+	// The first alternative whose expansion is not cut gives the example.
+	for _, typeName := range tt {
+		if !bytes.NewBytes(typeName).IsUserTypeName() {
+			continue
+		}
+		ex, err := b.buildExampleForUserType(typeName)
+		if err != nil {
+			return nil, err
+		}
+		if ex != nil {
+			return ex, nil
+		}
+	}
+	return b.cutRecursion(node), nil
+}
+
+func (b *exampleBuilder) buildExampleForUserType(typeName string) ([]byte, error) {
 	if cnt := b.processedTypes[typeName]; cnt > 1 {
 		// Do not process already processed type more than twice.
-		return b.cutRecursion(node), nil
+		return nil, nil
 	}
 
 	b.processedTypes[typeName]++
@@ -170,14 +192,7 @@ func (b *exampleBuilder) buildExampleForMixedValueNode(node *ischema.MixedValueN
 	if !ok {
 		return nil, errs.ErrUserTypeNotFound.F(typeName)
 	}
-	ex, err := b.Build(t.Schema.RootNode())
-	if err != nil {
-		return nil, err
-	}
-	if ex == nil {
-		return b.cutRecursion(node), nil
-	}
-	return ex, nil
+	return b.Build(t.Schema.RootNode())
 }
 
 // cutRecursion returns what stands for a reference whose expansion was cut:
